@@ -1386,4 +1386,201 @@ theorem reachable_of_hasCycle (h : Heap) (nd : NoDangling h) (r : Ref) (hr : r <
   obtain ⟨c, hc', d, hcd, hdc⟩ := walk_dup w hnd
   exact ⟨c, d, walk_reach w c hc', hcd, hdc⟩
 
+/-! ## the repaired `BuildParamToNative` -/
+
+theorem serList_err {rec : List Nat → Val → Nat → Except VErr Bytes} {e : VErr} :
+    ∀ {vs path i size}, serList rec path i vs size = .error e → ∃ v ∈ vs, ∃ p s, rec p v s = .error e := by
+  intro vs
+  induction vs with
+  | nil => intro path i size h; simp [serList] at h
+  | cons v vs ih =>
+    intro path i size h
+    unfold serList at h
+    cases h1 : rec (i :: path) v size with
+    | error e' =>
+      rw [h1] at h
+      cases h
+      exact ⟨v, List.mem_cons_self, _, _, h1⟩
+    | ok o =>
+      rw [h1] at h
+      simp only at h
+      cases h2 : serList rec path (i + 1) vs (size + o.length) with
+      | error e' =>
+        rw [h2] at h
+        cases h
+        obtain ⟨v', hv', p, s, hr⟩ := ih h2
+        exact ⟨v', List.mem_cons_of_mem _ hv', p, s, hr⟩
+      | ok os => rw [h2] at h; cases h
+
+theorem serList_ok_all {rec : List Nat → Val → Nat → Except VErr Bytes} :
+    ∀ {vs path i size body}, serList rec path i vs size = .ok body → ∀ v ∈ vs, ∃ p s o, rec p v s = .ok o := by
+  intro vs
+  induction vs with
+  | nil => intro _ _ _ _ _ v hv; cases hv
+  | cons x xs ih =>
+    intro path i size body h v hv
+    obtain ⟨o, os, h1, h2, _⟩ := serList_cons_ok h
+    rcases List.mem_cons.mp hv with rfl | hv
+    · exact ⟨_, _, _, h1⟩
+    · exact ih h2 v hv
+
+/-- the recursion budget `|heap| + 2` is never exhausted: the containers on the path are pairwise different objects -/
+theorem natvP_no_fuel (var : Variant) (perm : Perm) (h : Heap) :
+    ∀ f path on v, on.Nodup → (∀ x ∈ on, x < h.length) → h.length + 2 ≤ f + on.length →
+      natvP var perm h f path on v ≠ .error .fuel := by
+  intro f
+  induction f with
+  | zero =>
+    intro path on v hn hb hf
+    have := nodup_bound h.length on hn hb
+    omega
+  | succ f ih =>
+    intro path on v hn hb hf
+    unfold natvP
+    split
+    · intro c; cases c
+    · cases v with
+      | ref r =>
+        simp only
+        cases ho : h[r]? with
+        | none => intro c; cases c
+        | some o =>
+          have hr : r < h.length := by
+            have := List.getElem?_eq_some_iff.mp ho
+            exact this.1
+          cases o with
+          | map es => intro c; cases c
+          | arr vs =>
+            simp only
+            split
+            · intro c; cases c
+            · rename_i hc
+              cases hs : serList (fun p v _ => natvP var perm h f p (r :: on) v) path 0 vs 0 with
+              | ok b => intro c; cases c
+              | error e =>
+                simp only
+                intro c
+                cases c
+                obtain ⟨v', hv', p, s, hr'⟩ := serList_err hs
+                have hne : vs.length > 0 := List.length_pos_of_mem hv'
+                have hnc : on.contains r = false := by
+                  cases hx : on.contains r with
+                  | false => rfl
+                  | true => simp [hne] at hc; exact absurd (by simpa using hx) hc
+                have hnm : r ∉ on := by simpa using hnc
+                exact ih p (r :: on) v' (List.nodup_cons.mpr ⟨hnm, hn⟩)
+                  (by intro x hx; rcases List.mem_cons.mp hx with rfl | hx; exact hr; exact hb x hx)
+                  (by simp; omega) hr'
+          | struct vs =>
+            simp only
+            split
+            · intro c; cases c
+            · rename_i hc
+              intro hs
+              obtain ⟨v', hv', p, s, hr'⟩ := serList_err hs
+              have hne : vs.length > 0 := List.length_pos_of_mem hv'
+              have hnc : on.contains r = false := by
+                cases hx : on.contains r with
+                | false => rfl
+                | true => simp [hne] at hc; exact absurd (by simpa using hx) hc
+              have hnm : r ∉ on := by simpa using hnc
+              exact ih p (r :: on) v' (List.nodup_cons.mpr ⟨hnm, hn⟩)
+                (by intro x hx; rcases List.mem_cons.mp hx with rfl | hx; exact hr; exact hb x hx)
+                (by simp; omega) hr'
+      | _ => intro c; cases c
+
+/-- a run that returns bytes has visited everything reachable: no cycle is reachable -/
+theorem natvP_ok_acyclic (var : Variant) (perm : Perm) (h : Heap) :
+    ∀ f path on v out, natvP var perm h f path on v = .ok out → ¬ CycleReachable h v := by
+  intro f
+  induction f with
+  | zero => intro path on v out h0; simp [natvP] at h0
+  | succ f ih =>
+    intro path on v out hok hcyc
+    cases v with
+    | ref r =>
+      unfold natvP at hok
+      split at hok
+      · cases hok
+      · simp only at hok
+        cases ho : h[r]? with
+        | none => rw [ho] at hok; cases hok
+        | some o =>
+          rw [ho] at hok
+          -- every reference child was marshalled successfully
+          have hk : ∀ s, Val.ref s ∈ o.kids → ¬ CycleFrom h s := by
+            intro s hs
+            cases o with
+            | map es => cases hok
+            | arr vs =>
+              simp only at hok
+              split at hok
+              · cases hok
+              · cases hsl : serList (fun p v _ => natvP var perm h f p (r :: on) v) path 0 vs 0 with
+                | error e => rw [hsl] at hok; cases hok
+                | ok body =>
+                  obtain ⟨p, s', o', hr⟩ := serList_ok_all hsl _ hs
+                  exact ih p (r :: on) _ o' hr
+            | struct vs =>
+              simp only at hok
+              split at hok
+              · cases hok
+              · obtain ⟨p, s', o', hr⟩ := serList_ok_all hok _ hs
+                exact ih p (r :: on) _ o' hr
+          obtain ⟨c, d, hrc, hcd, hdc⟩ := hcyc
+          cases hrc with
+          | refl =>
+            obtain ⟨o', ho', hmem⟩ := hcd
+            rw [ho] at ho'; cases ho'
+            exact hk d hmem ⟨r, d, hdc, ⟨o, ho, hmem⟩, hdc⟩
+          | step e rest =>
+            obtain ⟨o', ho', hmem⟩ := e
+            rw [ho] at ho'; cases ho'
+            exact hk _ hmem ⟨c, d, rest, hcd, hdc⟩
+    | _ => exact hcyc
+
+/-- error kinds: never `size`; `badtype` only if the heap has a map; `dangling` only for a reference outside the heap -/
+theorem natvP_err (var : Variant) (perm : Perm) (h : Heap) (nd : NoDangling h) :
+    ∀ f path on v e, (∀ r, v = .ref r → r < h.length) → natvP var perm h f path on v = .error e →
+      e = .cycle ∨ e = .fuel ∨ (e = .badtype ∧ ∃ (r : Ref) (es : List Entry), h[r]? = some (Obj.map es)) := by
+  intro f
+  induction f with
+  | zero => intro path on v e _ h0; simp only [natvP] at h0; cases h0; exact .inr (.inl rfl)
+  | succ f ih =>
+    intro path on v e hv herr
+    cases v with
+    | ref r =>
+      unfold natvP at herr
+      split at herr
+      · cases herr; exact .inl rfl
+      · simp only at herr
+        have hr := hv r rfl
+        have ho : h[r]? = some h[r] := List.getElem?_eq_getElem hr
+        rw [ho] at herr
+        have kidsOK : ∀ v' ∈ (h[r]).kids, ∀ s, v' = Val.ref s → s < h.length := by
+          intro v' hv' s hs; subst hs; exact nd r _ ho s hv'
+        generalize h[r] = o at herr ho kidsOK
+        cases o with
+        | map es => cases herr; exact .inr (.inr ⟨rfl, r, es, ho⟩)
+        | arr vs =>
+          simp only at herr
+          split at herr
+          · cases herr; exact .inl rfl
+          · cases hsl : serList (fun p v _ => natvP var perm h f p (r :: on) v) path 0 vs 0 with
+            | ok b => rw [hsl] at herr; cases herr
+            | error e' =>
+              rw [hsl] at herr
+              cases herr
+              obtain ⟨v', hv', p, s, hr'⟩ := serList_err hsl
+              exact ih p (r :: on) v' _ (kidsOK v' hv') hr'
+        | struct vs =>
+          simp only at herr
+          split at herr
+          · cases herr; exact .inl rfl
+          · obtain ⟨v', hv', p, s, hr'⟩ := serList_err herr
+            exact ih p (r :: on) v' _ (kidsOK v' hv') hr'
+    | bytes d => unfold natvP at herr; split at herr <;> cases herr; exact .inl rfl
+    | bool b => unfold natvP at herr; split at herr <;> cases herr; exact .inl rfl
+    | int z => unfold natvP at herr; split at herr <;> cases herr; exact .inl rfl
+
 end OntVerif.Proofs.NeoVal
